@@ -230,8 +230,8 @@ def run(rep):
             st, fs = compare(impl, model, True)
             absorb(st)
             fails += fs
-        plan = [("hdl", 120, 80), ("hdlopt", 80, 80), ("sim", 200, 150)] if not thorough else \
-               [("hdl", 1500, 150), ("hdlopt", 800, 150), ("sim", 3000, 200)]
+        plan = [("hdldir", 0, 0), ("hdldiropt", 0, 0), ("hdl", 120, 80), ("hdlopt", 80, 80), ("sim", 200, 150)] if not thorough else \
+               [("hdldir", 0, 0), ("hdldiropt", 0, 0), ("hdl", 1500, 150), ("hdlopt", 800, 150), ("sim", 3000, 200)]
         for mode, n, steps in plan:
             impl, model = run_pair(hbin, [mode, str(max(1, n // 3)), str(steps)])
             st, fs = compare(impl, model, mode != "sim")
@@ -243,7 +243,7 @@ def run(rep):
     rep.coverage.update({
         "evaluations": tot["steps"],
         "distinct_nontrivial": len(distinct),
-        "rule": "seeded random ha-mode architectures (rsize 8/16/32/64, R 1..3, N/M 0..3, O 2..5, opcode subsets of the co-implemented set "
+        "rule": "directed machines (every co-implemented opcode alone with rset/j, R 1..3, two register sizes, every register pair of interest, with and without the optimisations) + seeded random ha-mode architectures (rsize 8/16/32/64, R 1..3, N/M 0..3, O 2..5, opcode subsets of the co-implemented set "
                 "sized around powers of two) x random programs with in-range operands ending in a jump x random port stimuli; "
                 "non-trivial/distinct = distinct (machine, program, instruction count) at which the emitted HDL and the Go VM were compared",
         "samples": samples or [{"note": "correspondence did not run"}],
